@@ -340,6 +340,10 @@ def oracle(case):
         msg = oracle_single_is_range(case, tmp)
         if msg:
             return msg
+    if sel is not None:
+        msg = oracle_history(case, tmp)
+        if msg:
+            return msg
     if case.get("filt"):
         return oracle_filtered(case, tmp)
     if case["kind"] == "jet":
@@ -355,6 +359,8 @@ def _snapshot(o):
             "counts": cnt.tolist(), "counts_shape": list(cnt.shape)}
     if hasattr(o, "get_sigmaGen"):
         snap["sigma"] = [float(x) for x in o.get_sigmaGen()]
+    if hasattr(o, "impact_parameters"):
+        snap["impacts"] = [float(x) for x in o.impact_parameters()]
     try:
         pl = o.particle_list()
         snap["particle_list"] = [len(e) for e in pl] if isinstance(pl, list) else str(type(pl))
@@ -402,6 +408,55 @@ def _open(case, tmp, **kw):
             return K(path, **kw)
     finally:
         os.remove(path)
+
+
+def _open_seq(case, tmp, kws):
+    """several constructions from ONE file that stays on disk in between (same path, same mtime)"""
+    import warnings
+    if case["kind"] == "jet":
+        from sparkx.Jetscape import Jetscape as K
+        path = os.path.join(tmp, f"seq_{os.getpid()}.dat")
+        text = J.render(case["doc"])
+    else:
+        from sparkx.Oscar import Oscar as K
+        path = os.path.join(tmp, f"seq_{os.getpid()}.oscar")
+        text = G.render(case["doc"])
+    open(path, "w").write(text)
+    out = []
+    try:
+        with warnings.catch_warnings():
+            warnings.simplefilter("ignore")
+            for kw in kws:
+                kw = dict(kw)
+                if case["kind"] == "jet":
+                    kw["particletype"] = case["doc"]["ptype"]
+                try:
+                    out.append(_snapshot(K(path, **kw)))
+                except Exception as e:
+                    out.append({"raises": f"{type(e).__name__}: {e}"[:200]})
+    finally:
+        os.remove(path)
+    return out
+
+
+def oracle_history(case, tmp):
+    """the selection read from a file gives the same object whatever was constructed from that file before (a filtered complete
+    load, the same selection with a filter, ...): nothing is remembered per file between constructions"""
+    sel = case["sel"]
+    kw = {"events": tuple(sel) if isinstance(sel, list) else sel}
+    F = filt_kwargs(case["filt"]) if case.get("filt") else {"charged_particles": True}
+    try:
+        fresh = _snapshot(_open(case, tmp, **kw))
+    except Exception as e:
+        fresh = {"raises": f"{type(e).__name__}: {e}"[:200]}
+    seq = _open_seq(case, tmp, [{"filters": F}, kw, dict(kw, filters=F), kw])
+    for pos, what in ((1, "a filtered complete load"), (3, "the same selection with a filter")):
+        if json.dumps(seq[pos], sort_keys=True) != json.dumps(fresh, sort_keys=True):
+            for key in sorted(set(seq[pos]) | set(fresh)):
+                if json.dumps(seq[pos].get(key)) != json.dumps(fresh.get(key)):
+                    return (f"events={sel} constructed after {what} of the same file differs in {key} from the same construction "
+                            f"on its own: {json.dumps(seq[pos].get(key))[:140]} vs {json.dumps(fresh.get(key))[:140]}")
+    return None
 
 
 def oracle_oob(case, tmp):
